@@ -135,7 +135,7 @@ Proof.
   - rewrite reify_args_eq. destruct (reify_args en pc l); reflexivity.
   - rewrite reify_args_eq. destruct (reify_args en pc l); reflexivity.
   - destruct fam; reflexivity.
-  - destruct tk; reflexivity.
+  - destruct tk; try reflexivity; unfold the_node; destruct (String.eqb _ "perFrameHook"); reflexivity.
   - unfold the_name_node. destruct (assoc_str (nm en tn) ASSIGN_KNOWN_PROPERTIES); reflexivity.
 Qed.
 
